@@ -260,5 +260,6 @@ LEVEL_TEXT = ('Deductive proof of the position arithmetic behind every report fo
     '(XML byte mode: the same line start), so the formats agree by construction; run_proofreader_options keeps text and map '
     'of the concatenated parts in step and shifts every match offset by exactly the length of the text submitted before its part (loop body contract: new offset == old offset + len(plain_tot) at that moment); the server '
     'answer applies the same map_match_position to every match.')
-LEVEL_NOTE = 'Proofreader behaviour, HTTP layer and regex of correct_mark_macroname assumed; excerpt wording not covered.'
+LEVEL_NOTE = ('Proofreader behaviour, HTTP layer and regex of correct_mark_macroname assumed; excerpt wording not covered.'
+    + ' Bounded stand-ins in the quick tier: the three report formats agree on locations, line starts, macro-name highlight, request assembly of the server emulation (sequences of <= 3 requests); reported as bounded, not counted as proved.')
 TECHNIQUE = 'contract-based deductive verification: one spec function for line/column, array-encoded texts, loop body contracts, z3'
